@@ -10,6 +10,8 @@ use std::collections::{BTreeMap, BTreeSet};
 use std::io::Write;
 use std::rc::Rc;
 
+pub const SLOW_CALL_CPU_MS: u64 = 3000;
+
 #[derive(Clone, Default)]
 pub struct ExecOpts {
     /// print `op <i>` to stdout (flushed) before each operation: used to localise stalls
@@ -404,6 +406,10 @@ fn execute_history(run: &Run, opts: &ExecOpts) -> Outcome {
                         let v = Variant { hash_seed: *s, preregister: vec![], repeat: false, diag_first: *diag_first, root: None };
                         let fr = fresh_process(&fs_now, &entry, &run.project.settings, &v);
                         cx.log_triple(&fr.first);
+                        cx.out.max_call_cpu_ms = cx.out.max_call_cpu_ms.max(fr.max_call_cpu_ms);
+                        if fr.max_call_cpu_ms > SLOW_CALL_CPU_MS {
+                            cx.violate("C04", "slow-build:one-call-used-more-than-3s-cpu".into(), json!({"who": "fresh", "cpu_ms": fr.max_call_cpu_ms}), i);
+                        }
                         fresh.push(fr);
                     }
                     let reach: BTreeSet<String> = fresh[0].resolved_to.iter().cloned().collect();
@@ -477,6 +483,13 @@ fn execute_history(run: &Run, opts: &ExecOpts) -> Outcome {
                     }
                 }
             }
+        }
+        // "terminates promptly": CPU time of one API call (thread clock, so load does not count).
+        // A build of these projects takes 0.1-20 ms; three seconds is a different complexity class.
+        let cpu = session::take_max_call_cpu_ms();
+        cx.out.max_call_cpu_ms = cx.out.max_call_cpu_ms.max(cpu);
+        if cpu > SLOW_CALL_CPU_MS {
+            cx.violate("C04", "slow-build:one-call-used-more-than-3s-cpu".into(), json!({"who": "session", "cpu_ms": cpu, "op": short_op(op)}), i);
         }
         if dead {
             cx.out.stats.probe("run_ended_by_session_panic");
@@ -595,6 +608,10 @@ fn execute_c10(run: &Run, opts: &ExecOpts) -> Outcome {
         cx.out.stats.fresh_builds += 2;
         let fr = fresh_process(&fs, entry, &run.project.settings, v);
         cx.log_triple(&fr.first);
+        cx.out.max_call_cpu_ms = cx.out.max_call_cpu_ms.max(fr.max_call_cpu_ms);
+        if fr.max_call_cpu_ms > SLOW_CALL_CPU_MS {
+            cx.violate("C04", "slow-build:one-call-used-more-than-3s-cpu".into(), json!({"who": "fresh", "cpu_ms": fr.max_call_cpu_ms}), i);
+        }
         if !v.preregister.is_empty() {
             cx.out.stats.fire("preregistration_order");
         }
